@@ -100,7 +100,7 @@ def describe(c, k, t, with_traces=True):
     return rec
 
 
-def shrink_case(c, k, t, max_rounds=14):
+def shrink_case(c, k, t, max_rounds=30, budget_s=150):
     """Minimise the program of a failing case keeping verdict code (and machine status)."""
     want = (t[0], t[5] if t[0] == 4 else 0)
 
@@ -113,7 +113,7 @@ def shrink_case(c, k, t, max_rounds=14):
             out.append(b is not None and (b[1][0], b[1][5] if b[1][0] == 4 else 0) == want)
         return out
     try:
-        m = shrink.shrink(c.prog, still, max_rounds=max_rounds)
+        m = shrink.shrink(c.prog, still, max_rounds=max_rounds, budget_s=budget_s)
     except Exception:
         return c, k, t
     cs = compile_cases([(c.name, m)], [c.vname])
